@@ -227,7 +227,12 @@ class Gen:
             # to the stack; the loop ends when the counter reaches 0)
             var = "k" + "abcdefgh"[min(depth, 7)]
             body = [["t", f"←{var} ‹ →{var}"]] + self.body(d, "while", n=r.randint(0, 3))
-            return ["mod_seq", [["t", r.choice(["1", "2", "3"]) + f" →{var}"], ["while", [["t", f"←{var}"]], body]]]
+            cond = [["t", f"←{var}"]]
+            if r.random() < self.cfg.get("p_cond_exit", 0.3):
+                # a break written in the CONDITION of the loop: reached at the first evaluation, at a re-evaluation, or
+                # depending on the enclosing context value (the loop it leaves is this one)
+                cond += [["t", r.choice([": 1 =", ": 2 =", "1", "n 2 =", "n"])], ["if", [["X"]]]]
+            return ["mod_seq", [["t", r.choice(["1", "2", "3"]) + f" →{var}"], ["while", cond, body]]]
         if k == "if":
             cond = ["t", r.choice(["1", "0", "n", "!", "2 n <"])]
             y = r.random()
